@@ -46,6 +46,7 @@ FNS = {
     'attr': _attr,
     'setattr': _setattr,
     'np.copy': lambda L, a: np.array(a, copy=True),
+    'deepcopy': lambda L, o: __import__('copy').deepcopy(o),
     'np.add': lambda L, a, b: a + b,
     'zeros': lambda L, shape, dtype='float': np.zeros(tuple(shape), dtype=dtype),
     # ---- planes
